@@ -588,6 +588,44 @@ def growth_records(pa, rng, quick):
 
 
 def replay(path, rep):
-    d = json.loads(open(path).read())
-    print(json.dumps(d["detail"].get("meta", {}), indent=1)[:4000])
-    print("clauses:", d["detail"].get("clauses"))
+    """Re-run the alignment of a stored violation on the current tree and print what the library returns now."""
+    from pyannote.core import Segment
+    d0 = json.loads(open(path).read())
+    det = d0["detail"]
+    meta = det.get("meta", det)
+    print("key:", d0.get("key"), " clauses:", det.get("clauses"))
+    pa = import_repo()
+    ar.install_solver_probe()
+    c, d = None, None
+    if meta.get("family") == "G" and "D" in meta:
+        c, d = ar.realise_table(pa, {"n": len(meta["sizes"]), "sizes": meta["sizes"], "D": meta["D"], "de": meta["de"]}, G_SCALE)
+        print("instance (TLC-enumerated, table realised by a precomputed matrix): sizes", meta["sizes"], "delta_empty", meta["de"] / G_SCALE,
+              " model optimum (sum over pairs, x8):", meta.get("model"))
+    elif "continuum" in meta:
+        c = pa.Continuum()
+        for a, units in meta["continuum"].items():
+            c.add_annotator(a)
+            for s0, e0, lab in units:
+                c.add(a, Segment(s0, e0), lab)
+        kind = meta.get("dissim")
+        de, al_, be_ = meta.get("delta_empty", 1.0), meta.get("alpha") or 1.0, meta.get("beta") or 1.0
+        if kind == "pos":
+            d = pa.PositionalSporadicDissimilarity(delta_empty=de)
+        elif kind == "abs":
+            d = pa.AbsoluteCategoricalDissimilarity(delta_empty=de)
+        elif kind == "comb_abs":
+            d = pa.CombinedCategoricalDissimilarity(alpha=al_, beta=be_, delta_empty=de)
+        print("continuum:", meta["continuum"], " dissimilarity:", kind, de, al_, be_)
+    if c is None or d is None:
+        print(json.dumps(det, indent=1, default=str)[:4000])
+        print("(this record's dissimilarity cannot be rebuilt from the replay file; the record above is what was judged)")
+        return
+    for be in ("CBC", "GLPK_MI"):
+        for name, fn in (("best", c.get_best_alignment), ("soft", c.get_best_soft_alignment)):
+            try:
+                with ar.backend(be):
+                    al = fn(d)
+                print(be, name, "disorder", float(al.disorder), "tuples",
+                      [[None if u is None else (u.segment.start, u.segment.end, u.annotation) for _, u in ua.n_tuple] for ua in al.unitary_alignments])
+            except Exception as ex:
+                print(be, name, "raises", repr(ex))
